@@ -36,16 +36,24 @@ def unwrap(e, wrappers=WRAPPERS):
 
 
 def src_field(e):
-    """(adt, variant, field) when e reads field `field` of variant `variant` of an enum value; else None"""
+    """(adt, variant, field) when e reads field `field` of variant `variant` of an enum value; else None.
+    A phi whose alternatives all read the same field of the same variant counts as that field."""
     e = unload(unwrap(e))
+    if isinstance(e, tuple) and e and e[0] == 'phi':
+        rs = {src_field(a) for a in e[1]}
+        if len(rs) == 1 and None not in rs:
+            return rs.pop()
+        return None
     if isinstance(e, tuple) and e and e[0] == 'fld' and isinstance(e[1], tuple) and e[1] and e[1][0] == 'var':
         return (e[2], e[1][2], e[3])
     return None
 
 
 def src_base(e):
-    """the enum value whose variant field is read"""
+    """the enum value whose variant field is read (first alternative of a phi)"""
     e = unload(unwrap(e))
+    if isinstance(e, tuple) and e and e[0] == 'phi':
+        return src_base(e[1][0])
     if isinstance(e, tuple) and e and e[0] == 'fld' and e[1][0] == 'var':
         return e[1][1]
     return None
